@@ -575,7 +575,11 @@ def sphdist(ra1, dec1, ra2, dec2, units=["deg", "deg"]):
     if units_out == "deg":
         np.rad2deg(dis, dis)
 
-    (w,) = np.where((ra1 == ra2) & (dec1 == dec2))
+    same = (
+        (np.asarray(ra1) == np.asarray(ra2))
+        & (np.asarray(dec1) == np.asarray(dec2))
+    )
+    (w,) = np.where(np.atleast_1d(same))
     dis[w] = 0.0
 
     return dis
